@@ -4,8 +4,20 @@ open Py Lean
 namespace Driver.D_vatin
 def handle (fn : String) (args : List Json) : String :=
   match fn with
+  | "_get_cc_module" => match args with
+    | [a0] => (do let x0 ← Wire.decStr a0; pure (Wire.respondWith (Wire.encOpt Wire.encModule) (Gen.vatin._get_cc_module x0)) : Option String).getD "badargs"
+    | _ => "badargs"
   | "compact" => match args with
     | [a0] => (do let x0 ← Wire.decStr a0; pure (Wire.respondWith Wire.encStr (Gen.vatin.compact x0)) : Option String).getD "badargs"
+    | _ => "badargs"
+  | "is_valid" => match args with
+    | [t, a0] => (do let today__ ← Wire.decDate t; let x0 ← Wire.decStr a0; pure (Wire.respondWith Wire.encBool (Gen.vatin.is_valid today__ x0)) : Option String).getD "badargs"
+    | _ => "badargs"
+  | "validate" => match args with
+    | [t, a0] => (do let today__ ← Wire.decDate t; let x0 ← Wire.decStr a0; pure (Wire.respondWith Wire.encStr (Gen.vatin.validate today__ x0)) : Option String).getD "badargs"
+    | _ => "badargs"
+  | "_get_cc_module__warm" => match args with
+    | [a0, a1] => (do let x0 ← (Wire.decDict Wire.decStr (Wire.decOpt Wire.decModule)) a0; let x1 ← Wire.decStr a1; pure (Wire.respondWith (Wire.encT2 (Wire.encOpt Wire.encModule) (Wire.encDict Wire.encStr (Wire.encOpt Wire.encModule))) (Gen.vatin._get_cc_module__warm x0 x1)) : Option String).getD "badargs"
     | _ => "badargs"
   | _ => "nofunc"
 end Driver.D_vatin
